@@ -8,6 +8,10 @@ require (
 	github.com/fsnotify/fsnotify v1.7.0
 	github.com/lestrrat-go/jwx/v2 v2.0.21
 	golang.org/x/crypto v0.24.0
+	golang.org/x/sys v0.21.0
+	google.golang.org/genproto/googleapis/rpc v0.0.0-20240318140521-94a12d6c2237
+	google.golang.org/grpc v1.64.0
+	google.golang.org/protobuf v1.33.0
 	k8s.io/utils v0.0.0-20230726121419-3b25d923346b
 )
 
@@ -26,7 +30,6 @@ require (
 	github.com/tidwall/transform v0.0.0-20201103190739-32f242e2dbde // indirect
 	github.com/zeebo/errs v1.3.0 // indirect
 	golang.org/x/exp v0.0.0-20231006140011-7918f672742d // indirect
-	golang.org/x/sys v0.21.0 // indirect
 	gopkg.in/inf.v0 v0.9.1 // indirect
 	k8s.io/apimachinery v0.26.9 // indirect
 )
